@@ -356,4 +356,6 @@ pub mod __internal__ {
 #[doc(hidden)]
 pub mod __verif {
     pub use crate::ohkami::routing::{HandlerSet, ByAnother, Dir, Routing};
+    #[cfg(feature="__rt_native__")]
+    pub use crate::ohkami::{__VerifCtrlC, __VERIF_SCHED};
 }
